@@ -177,6 +177,7 @@ func propC15(w *World, r *Report, tier string) {
 		return fn.Name() == "MarshalBinary" || strings.HasPrefix(fn.Name(), "build")
 	})
 	r.Expect("seq.all-items", 6)
+	checkComponentRoundTrip(w, r)
 	r.Expect("seq.must-read", 5)
 	r.Expect("seq.fresh-elem", 6)
 	// factories
@@ -435,4 +436,136 @@ func lenFromContent(w *World, r *Report, rel string, sel func(string) bool, file
 			}
 		}
 	}
+}
+
+// scalarFields lists the integer fields of a struct type (embedded structs flattened) as access
+// paths with their widths; ok is false when the type has a field of another kind.
+func scalarFields(t types.Type, prefix string) (paths []string, widths []int, ok bool) {
+	st, isSt := t.Underlying().(*types.Struct)
+	if !isSt {
+		return nil, nil, false
+	}
+	for i := 0; i < st.NumFields(); i++ {
+		f := st.Field(i)
+		p := prefix + "." + f.Name()
+		if w, _, isInt := typeWidth(f.Type()); isInt {
+			paths = append(paths, p)
+			widths = append(widths, w)
+			continue
+		}
+		if _, isStruct := f.Type().Underlying().(*types.Struct); isStruct {
+			ps, ws, ok2 := scalarFields(f.Type(), p)
+			if !ok2 {
+				return nil, nil, false
+			}
+			paths = append(paths, ps...)
+			widths = append(widths, ws...)
+			continue
+		}
+		return nil, nil, false
+	}
+	return paths, widths, true
+}
+
+// checkComponentRoundTrip (comp.roundtrip): for every implementation of the two component
+// interfaces whose fields are all integers, UnmarshalBinary(MarshalBinary(v)) == v for EVERY value
+// v that MarshalBinary accepts: both methods are interpreted by E2 on symbolic fields, the
+// parser's error must be nil and each field equal, decided by ROBDD under the premise "the
+// serialiser returned no error".
+func checkComponentRoundTrip(w *World, r *Report) {
+	pkg := w.Pkg("nasType").Types
+	sc := pkg.Scope()
+	for _, ifn := range []string{"PacketFilterComponent", "QoSFlowParameter"} {
+		tn, ok := sc.Lookup(ifn).(*types.TypeName)
+		if !ok {
+			continue
+		}
+		iface, ok := tn.Type().Underlying().(*types.Interface)
+		if !ok {
+			continue
+		}
+		for _, n := range sc.Names() {
+			o, ok := sc.Lookup(n).(*types.TypeName)
+			if !ok || types.IsInterface(o.Type()) || !types.Implements(types.NewPointer(o.Type()), iface) {
+				continue
+			}
+			paths, widths, scalar := scalarFields(o.Type(), "")
+			if !scalar {
+				r.Note("comp.roundtrip: %s has non-integer fields (addresses): not covered by this rule", n)
+				continue
+			}
+			fm := w.LookupFunc("nasType", n+".MarshalBinary")
+			fu := w.LookupFunc("nasType", n+".UnmarshalBinary")
+			if fm == nil || fu == nil {
+				continue
+			}
+			r.Site("comp.roundtrip")
+			name := "nasType." + n
+			r.Fn(FuncName(fm))
+			r.Fn(FuncName(fu))
+			it := NewInterp(w)
+			it.Fuel = 100000
+			it.PreferNonNilSlice = true
+			readerModels(it)
+			st := it.NewState()
+			a, ra := it.SymbolicObj("a")
+			st.mem[a] = map[string]Value{}
+			var orig []BV
+			for i, p := range paths {
+				v := it.SrcBV("a"+p, widths[i])
+				st.mem[a][p] = v
+				orig = append(orig, v)
+			}
+			res := it.Call(w.SSAFunc(fm), []Value{ra}, st, 0)
+			tv, ok := res.(TupleV)
+			var n1 *Node
+			var out SliceV
+			if ok && len(tv) == 2 {
+				out, ok = tv[0].(SliceV)
+				if ok {
+					n1, ok = it.errNil(tv[1])
+				}
+			}
+			if !ok || len(it.Unsup) > 0 {
+				r.Fail("comp.roundtrip", name, "serialiser undecided", fm.Pos(), fmt.Sprintf("MarshalBinary is outside the modelled fragment: %v", it.Unsup), nil)
+				continue
+			}
+			if out.Nil || out.Len < 0 {
+				// the accepting path returns the octets; a nil slice only comes with an error
+				r.Fail("comp.roundtrip", name, "serialiser output", fm.Pos(), "the serialised octets have no fixed length", nil)
+				continue
+			}
+			it.AndPremise(n1)
+			b, rb := it.SymbolicObj("b")
+			st.mem[b] = map[string]Value{}
+			res2 := it.Call(w.SSAFunc(fu), []Value{rb, out}, st, 0)
+			n2, ok := it.errNil(res2)
+			if !ok || len(it.Unsup) > 0 {
+				r.Fail("comp.roundtrip", name, "parser undecided", fu.Pos(), fmt.Sprintf("UnmarshalBinary is outside the modelled fragment: %v", it.Unsup), nil)
+				continue
+			}
+			good, why := true, ""
+			if !underPremiseZero(it, it.T.Not(n2)) {
+				good, why = false, "the parser rejects octets the serialiser produced without error"
+			}
+			for i, p := range paths {
+				if !good {
+					break
+				}
+				got, isBV := st.mem[b][p].(BV)
+				if !isBV {
+					got, isBV = it.load(st, Ptr{Obj: b, Path: p}, nil).(BV)
+				}
+				if !isBV || got.W != orig[i].W || !underPremiseZero(it, neqBV(it, got, orig[i])) {
+					good, why = false, "field "+strings.TrimPrefix(p, ".")+" does not come back with the value that was serialised, for some value the serialiser accepts"
+				}
+			}
+			if good {
+				r.OK("comp.roundtrip")
+			} else {
+				r.Fail("comp.roundtrip", name, "Unmarshal(Marshal(v)) == v", fm.Pos(), why, nil)
+			}
+		}
+	}
+	r.Expect("comp.roundtrip", 12)
 }
